@@ -410,23 +410,37 @@ class Pipe<StageClass::kGenerator, CurStage, PipeNext> {
   void execute() {
     ssize_t numThreads = std::max<ssize_t>(
         1, std::min(tasks_.numPoolThreads(), StageLimits<CurStage>::limit(stage_)));
-    completion_ = std::make_unique<CompletionEventImpl>(static_cast<int>(numThreads));
-    for (ssize_t i = 0; i < numThreads; ++i) {
-      tasks_.schedule([this]() {
-        // RAII guard ensures the completion event is signaled even if an exception
-        // propagates out of pipeNext_.execute() (e.g. when ConcurrentTaskSet runs a
-        // downstream stage inline and it throws). Without this, wait() would hang on
-        // completion_->wait(0) because the count is never decremented.
-        struct CompletionGuard {
-          DISPENSO_INLINE ~CompletionGuard() {
-            DISPENSO_VERIF_POINT("pipe.gen.completion.dec", completion);
-            if (completion->intrusiveStatus().fetch_sub(1, std::memory_order_acq_rel) == 1) {
-              completion->notify(0);
-            }
+    completion_ = std::make_shared<CompletionEventImpl>(static_cast<int>(numThreads));
+    // Counts the completion event down when destroyed. Every generator task owns one by value, so
+    // the event is signaled even if the task set is cancelled and skips the task without running
+    // it. Without this, wait() would hang on completion_->wait(0) because the count is never
+    // decremented for the skipped task. The guards share ownership of the event: the guard of a
+    // skipped task fires after the task set has stopped counting that task, so wait() may already
+    // have returned and the pipe may be gone while the guard still signals the event.
+    struct CompletionGuard {
+      explicit CompletionGuard(std::shared_ptr<CompletionEventImpl> c)
+          : owner(std::move(c)), completion(owner.get()) {}
+      CompletionGuard(CompletionGuard&& other) noexcept
+          : owner(std::move(other.owner)), completion(other.completion) {
+        other.completion = nullptr;
+      }
+      DISPENSO_INLINE ~CompletionGuard() {
+        if (completion) {
+          DISPENSO_VERIF_POINT("pipe.gen.completion.dec", completion);
+          if (completion->intrusiveStatus().fetch_sub(1, std::memory_order_acq_rel) == 1) {
+            completion->notify(0);
           }
-          CompletionEventImpl* completion;
-        };
-        CompletionGuard cGuard{completion_.get()};
+        }
+      }
+      std::shared_ptr<CompletionEventImpl> owner;
+      CompletionEventImpl* completion;
+    };
+    for (ssize_t i = 0; i < numThreads; ++i) {
+      tasks_.schedule([this, pending = CompletionGuard(completion_)]() mutable {
+        // Taking ownership here signals the event when the body ends, also if an exception
+        // propagates out of pipeNext_.execute() (e.g. when ConcurrentTaskSet runs a downstream
+        // stage inline and it throws).
+        CompletionGuard cGuard(std::move(pending));
 
         DISPENSO_VERIF_POINT("pipe.gen.hasException", this);
         while (!tasks_.hasException()) {
@@ -449,7 +463,7 @@ class Pipe<StageClass::kGenerator, CurStage, PipeNext> {
 
  private:
   ConcurrentTaskSet& tasks_;
-  std::unique_ptr<CompletionEventImpl> completion_;
+  std::shared_ptr<CompletionEventImpl> completion_;
   CurStage stage_;
   PipeNext pipeNext_;
 };
